@@ -9,7 +9,9 @@ EXPLANATION = (
     'scores in callback order into per-sentence buffers and never reorders; both charts keep duplicates exactly '
     'when nbest > 1 and chart::update drops an item only when !nbest; the search stops at goal.size() >= nbest. '
     'Together with C01\'s monotone pop order this orders the k results best first; that the k scores are the k '
-    'largest over all derivations is a semantic consequence not decided here.')
+    'largest over all derivations is a semantic consequence not decided here.'
+    ' The admissible estimates (row maxima BT/BD, outside tables) and the call-local id-keyed containers are part of this check as well.'
+)
 TRUSTED = ['clang-14 front end', 'CPython ast', 'sa/pyx.py normaliser', 'rule table DESIGN.md C10']
 
 
